@@ -166,29 +166,30 @@ Print Assumptions C10_rollback_bare_errors.
    fluctuation (divisor of the force constant and of the mass) and time constant, non-negative damping;
    harmonicWalls: at least one list of walls, one wall per variable in every list given, lower < upper (and apart) and
    non-zero constants when both are given;  OPES: barrier >= 0, biasfactor > 1 or infinite, epsilon > 0, cutoff > 0,
-   compression threshold 0 or within [0, cutoff];  metadynamics: positive hill weight, one width per variable;
+   compression threshold 0 or within [0, cutoff];  metadynamics: positive hill weight, one width per variable, every width positive;
    shared ABF: outputFreq a multiple of sharedFreq (or sharedFreq 0);  ALB: halved update frequency >= 2, one center per
-   variable;  changing force constant: k >= 0 and targetNumSteps non-zero. *)
+   variable;  changing force constant: k >= 0, targetNumSteps non-zero, lambdaExponent >= 0. *)
 Theorem C10_accepted_configuration_invariants :
   (forall temp e, x_err (fst (colvarx_validate temp e)) = false -> colvarx_inv (snd (colvarx_validate temp e)) = true) /\
-  (forall n e, (0 < n)%nat -> x_err (fst (walls_validate n e)) = false ->
-     let s := snd (walls_validate n e) in
+  (forall ws n e, (0 < n)%nat -> x_err (fst (walls_validate ws n e)) = false ->
+     let s := snd (walls_validate ws n e) in
      (wx_lower s <> [] \/ wx_upper s <> []) /\
      (wx_lower s <> [] -> List.length (wx_lower s) = n) /\ (wx_upper s <> [] -> List.length (wx_upper s) = n) /\
      (wx_lower s <> [] -> wx_upper s <> [] ->
-        pairwise_lt (wx_lower s) (wx_upper s) = true /\ pairwise_apart (wx_lower s) (wx_upper s) = true /\
+        pairwise_lt (wx_lower s) (wx_upper s) = true /\ pairwise_apart ws (wx_lower s) (wx_upper s) = true /\
         Qeq_bool (wx_lk s * wx_uk s) Q0 = false)) /\
   (forall kbt bfinf explore e,
      x_err (fst (opesx_validate kbt bfinf explore e)) = false -> opesx_inv (snd (opesx_validate kbt bfinf explore e)) = true) /\
   (forall n e, x_err (fst (metax_validate n e)) = false ->
-     negb (Qle_bool (mx_weight (snd (metax_validate n e))) Q0) = true /\ mx_sigmas (snd (metax_validate n e)) = n) /\
+     negb (Qle_bool (mx_weight (snd (metax_validate n e))) Q0) = true /\ mx_sigmas (snd (metax_validate n e)) = n /\
+     forallb (Qltb Q0) (mx_widths (snd (metax_validate n e))) = true) /\
   (forall rof e, x_err (fst (abfshared_validate rof e)) = false -> eflag e "shared" false = true ->
      let '(ofr, sf) := snd (abfshared_validate rof e) in (sf =? 0) || (ofr mod sf =? 0) = true) /\
   (forall n e, x_err (fst (alb_validate n e)) = false ->
      2 <= fst (snd (alb_validate n e)) /\ snd (snd (alb_validate n e)) = n) /\
   (forall rof e, x_err (fst (kmoving_validate rof e)) = false ->
      let s := snd (kmoving_validate rof e) in
-     Qle_bool Q0 (kx_k s) = true /\ (kx_changing s = true -> kx_nsteps s <> 0)).
+     Qle_bool Q0 (kx_k s) = true /\ (kx_changing s = true -> kx_nsteps s <> 0) /\ Qle_bool Q0 (kx_exp s) = true).
 Proof.
   exact (conj colvarx_accept (conj walls_accept (conj opesx_accept (conj metax_accept (conj abfshared_accept
         (conj alb_accept kmoving_accept)))))).
@@ -198,8 +199,13 @@ Print Assumptions C10_accepted_configuration_invariants.
 Example C10_example_validate :
   x_err (fst (colvarx_validate (300 # 1) (mkEnv [("width", TokFrac 0 1 2); ("extendedFluctuation", TokFrac 0 1 4)] [] [("extendedLagrangian", true)]))) = false /\
   x_err (fst (colvarx_validate (300 # 1) (mkEnv [("width", TokInt 0)] [] []))) = true /\
-  x_err (fst (walls_validate 2 (mkEnv [] [("lowerWalls", [TokInt 0; TokInt 0]); ("upperWalls", [TokInt 3; TokInt 3])] []))) = false /\
-  x_err (fst (walls_validate 2 (mkEnv [] [("lowerWalls", [TokInt 3; TokInt 0]); ("upperWalls", [TokInt 3; TokInt 3])] []))) = true /\
+  x_err (fst (walls_validate [] 2 (mkEnv [] [("lowerWalls", [TokInt 0; TokInt 0]); ("upperWalls", [TokInt 3; TokInt 3])] []))) = false /\
+  x_err (fst (walls_validate [] 2 (mkEnv [] [("lowerWalls", [TokInt 3; TokInt 0]); ("upperWalls", [TokInt 3; TokInt 3])] []))) = true /\
+  (* walls 2e-9 apart: distinct for a variable of width 1e-8, coincident for one of width 1 (and for every variable before the repair of the threshold) *)
+  x_err (fst (walls_validate [1 # 100000000] 1 (mkEnv [] [("lowerWalls", [TokInt 0]); ("upperWalls", [TokSci 2 (-9)])] []))) = false /\
+  x_err (fst (walls_validate [1 # 1] 1 (mkEnv [] [("lowerWalls", [TokInt 0]); ("upperWalls", [TokSci 2 (-9)])] []))) = true /\
+  (* walls 0.5 apart coincide for a variable of width 1e6 *)
+  x_err (fst (walls_validate [1000000 # 1] 1 (mkEnv [] [("lowerWalls", [TokInt 0]); ("upperWalls", [TokFrac 0 5 10])] []))) = true /\
   x_err (fst (alb_validate 2 (mkEnv [("UpdateFrequency", TokInt 3)] [("centers", [TokInt 1; TokInt 1])] []))) = true.
 Proof. vm_compute. repeat split. Qed.
 
@@ -279,7 +285,8 @@ Print Assumptions C10_rejected_index_file_leaves_registry.
    well-formed state (no NULL group, no crash so far, every named group owned by a defined variable):
    (1) no NULL pointer is dereferenced and the state stays well-formed; the variables, biases, named groups and index
        groups that existed are still there unchanged; every variable that was active is still active;
-   (2) the same for any session of configurations and resets;
+   (2) the same for any session of configurations, resets and deletions of biases or variables through the scripting
+       interface (two holders of one variable or of one named group, then one deleted);
    (3) a configuration rejected in parse_global_params changes no object, no named group, no counter and no active
        variable; what it leaves behind, legitimately, is the groups of those of its index files that were ACCEPTED
        and the values of those module-level keywords that could be read.
